@@ -245,6 +245,10 @@ func c01(c *Ctx) {
 
 	// R-C01.7 sentinel survives wrapping
 	c01Wrapping(c)
+
+	// clause (b): the activation-token path (C06's validator rules, evaluated here too)
+	c.R.Rule("R-C06.1", "token validator: authorisation only after loading the entry under the ID derived from both token halves, non-nil/non-zero creation time, the expiry test, successful removal of the entry and the existing-record test (C06's rule, evaluated here for clause (b))")
+	c06Validator(c)
 }
 
 func c01Wrapped(c *Ctx, a *fetchAnchors, gValid core.Guard) {
